@@ -14,6 +14,7 @@ CTXG = {
                    'alpha': [], 'ldots': [], 'unknownmacro': [], ',': [], '%': [], 'hspace': ['s', 'm'], 'mathrm': ['m'],
                    "'": ['m'], 'footnote': ['o', 'm']},
         'envs': {'itemize': ([], False), 'equation': ([], True), 'center': ([], False), 'unknownenv': ([], False),
+                 'my-env': ([], False), 'long-table*': ([], False), 'a.b_c:d/e!f^(g)[h] 1': ([], False),
                  'array': (['o', 'm'], True), 'align*': ([], True), 'tabular': (['m'], False)},
         'verbenvs': {'verbatim': False, 'lstlisting': True},
         'verbmacro': 'verb',
@@ -661,7 +662,7 @@ def gen_random_ctx(rng):
         cg['macros'][name] = sig
         macros.append([name, ['S', [json_spec(k) for k in sig]]])
     for i in range(rng.randint(1, 3)):
-        name = rng.choice(['e', 'f', 'ee', 'g*'])
+        name = rng.choice(['e', 'f', 'ee', 'g*', 'h-i', 'j.k', 'l_m', 'n o', 'p:q', 'r/s', 't!', '^', '(v)', '[w]', '7'])
         if name in cg['envs']:
             continue
         sig = [rng.choice(SLOT_KINDS[:13]) for _ in range(rng.randint(0, 2))]
